@@ -61,7 +61,7 @@ NoKV == [k \in Keys |-> NoRd]
    to the cited total): such a transaction is never current (CheckInputEqualOutput compares cited and stored amount);
    "sum" = inputs and outputs of different sums; "dupin" / "dupfar" = the same output listed twice as input (adjacent / with another input in between); "coinbase" = the
    spend is folded into the coinbase of the block that lists it; "blind" = a key is written that is not among the
-   declared reads.  None of these is ever admissible. *)
+   declared reads; "mbsum" = "sum" plus an empty modify_block annotation (covered by neither id nor digest).  None of these is ever admissible. *)
 (* big: the transaction carries a 300 KB description (block size limit, C13) *)
 Tok(ins, outs) == [ins |-> ins, outs |-> outs, reads |-> NoKV, writes |-> NoKV, bad |-> "", big |-> FALSE]
 TokBad(ins, outs, bad) == [ins |-> ins, outs |-> outs, reads |-> NoKV, writes |-> NoKV, bad |-> bad, big |-> FALSE]
@@ -95,6 +95,7 @@ TX == [
   w2 |-> TokBad({<<"g", 1>>}, <<O("c", 7)>>, "sum"),                   \* outputs (7) exceed the input (g.1 holds 6): creates a token
   w3 |-> TokBad({<<"g", 1>>}, <<O("c", 12)>>, "dupin"),                \* lists g.1 twice (cites 6 + 6, outputs 12)
   w5 |-> TokBad({<<"g", 0>>, <<"g", 1>>}, <<O("c", 26)>>, "dupfar"),   \* inputs g.0, g.1, g.0 again (cites 10 + 6 + 10): the repetition is not adjacent
+  w6 |-> TokBad({<<"g", 1>>}, <<O("c", 7)>>, "mbsum"),                 \* outputs exceed the input AND an empty, unmarked modify_block annotation is attached
   w4 |-> TokBad({<<"g", 1>>}, <<O("c", 5)>>, "sum"),                   \* outputs (5) below the input and no fee output: destroys a token
   c1 |-> TokBad({<<"g", 1>>}, <<O("c", 5)>>, "coinbase"),              \* not a transaction of its own: the block's coinbase spends g.1 (6) and
                                                                        \* pays award (1) + 5; a coinbase carries no signature and counts as new supply
